@@ -116,7 +116,12 @@ Chunk *align_func_param(Chunk *start)
       {
          comma_count = 0;
          chunk_count = 0;
-         many_as[pc->GetLevel()].NewLines(pc->GetNlCount());
+
+         // (nothing is collected beyond the deepest level that has a stack)
+         if (pc->GetLevel() <= HOW_MANY_AS)
+         {
+            many_as[pc->GetLevel()].NewLines(pc->GetNlCount());
+         }
       }
       else if (pc->GetLevel() <= start->GetLevel())
       {
